@@ -357,6 +357,13 @@ def render_token_library(spec, wp, wl):
                         lines.append("%s    wrap_%s: %s" % (e["indent"], k, e["over"][k]))
                         base[k] = e["over"][k]
             lines.append("%s  declarations:" % e["indent"])
+            # a nested container that is on for a language turns its enclosing containers on
+            # (promotion), exactly like a wrapped member function does
+            for (_d, outer_name, _b) in stack:
+                t = tokens[outer_name]
+                t["members"] += 1
+                for l in LANGS:
+                    t[l] = t[l] or bool(base[l])
             stack.append((d, e["name"], base))
             on_langs.update(l for l in LANGS if base[l])
             tokens[e["name"]] = {"c": bool(base["c"]), "fortran": bool(base["fortran"]), "python": bool(base["python"]),
